@@ -444,6 +444,9 @@ func writeEvidence(prop, tier string, seed int, units []*UnitResult, undecided, 
 		"A4 interior addresses passed as values are copied in (no aliasing through them)",
 		"A5 termination of recursive functions is not proved",
 		"A7 dependency behaviour as modelled (library models) or uninterpreted",
+		"A8/A9 slices have offset 0; re-slicing with a non-zero low bound copies; input slices do not partially overlap",
+		"A10 a struct or slice carried by value inside an interface argument of a pure function holds entry references only",
+		"A11 a call through a function value changes only what its arguments reach (state captured by the closure is not tracked)",
 	}
 	for _, k := range sortedKeys(hav) {
 		assumptions = append(assumptions, "havoc (no contract, results and reachable heaps unconstrained): "+k)
